@@ -13,6 +13,8 @@ EXTRA = {"C01_1": ["C07"], "C01_2b": ["C06"], "C06_1": ["C02"], "C06_2": ["C14",
 def one(name):
     d = os.path.join(ROOT, "seeded", name)
     meta = json.load(open(os.path.join(d, "meta.json")))
+    if meta.get("superseded"):
+        return name, []          # no longer a violation on the current tree (a later repair neutralised it)
     props = [meta["property"]] + EXTRA.get(name, [])
     out = subprocess.run([os.path.join(ROOT, "tools", "mutcheck.sh"), os.path.join(d, "patch.diff")] + props,
                          stdout=subprocess.PIPE, stderr=subprocess.STDOUT).stdout.decode()
